@@ -34,6 +34,56 @@ def run_spec(text, timeout=1800):
     return rc, out.split("\n")
 
 
+class Server:
+    """a long-running executor behind pipes: run(program_lines) -> output lines (one per op)"""
+
+    def __init__(self, cmd, env=None):
+        import subprocess
+        self.p = subprocess.Popen(cmd, stdin=subprocess.PIPE, stdout=subprocess.PIPE, stderr=subprocess.DEVNULL,
+                                  text=True, env=env, bufsize=1)
+
+    def run(self, prog):
+        self.p.stdin.write("reset\n" + "\n".join(prog) + "\n")
+        self.p.stdin.flush()
+        out = []
+        for _ in range(len(prog) + 1):
+            l = self.p.stdout.readline()
+            if not l:
+                raise RuntimeError("executor died")
+            out.append(l.rstrip("\n"))
+        return out[1:]
+
+    def close(self):
+        try:
+            self.p.stdin.close()
+            self.p.wait(timeout=5)
+        except Exception:
+            self.p.kill()
+
+
+_servers = {}
+
+
+def server(kind, cls="IntArray", cfg=(0, 0)):
+    key = (kind, cls, tuple(cfg))
+    sv = _servers.get(key)
+    if sv is None or sv.p.poll() is not None:
+        if kind == "model":
+            sv = Server([DRV, str(int(cfg[0])), str(int(cfg[1]))])
+        elif kind == "real":
+            sv = Server([pyimath.PYTHON, HARNESS, "--mode", "real", "--cls", cls, "--flush"], env=pyimath.env())
+        else:
+            sv = Server([sys.executable, HARNESS, "--mode", "spec", "--flush"])
+        _servers[key] = sv
+    return sv
+
+
+def close_servers():
+    for sv in _servers.values():
+        sv.close()
+    _servers.clear()
+
+
 def classes():
     rc, out = lib.sh([pyimath.PYTHON, HARNESS, "--mode", "classes"], env=pyimath.env(), timeout=300)
     try:
@@ -50,7 +100,7 @@ def is_err(l):
     return l.startswith("err ") or l.startswith("alias err ")
 
 
-def compare_model_real(index, lines, model, real):
+def compare_model_real(index, lines, model, real, strict_err=True):
     """-> (mismatches, oob_programs, nlines_compared).
     mismatch: (program_no, kind, op_offset, model_line, real_line); a program is compared up to the first line
     where the model reports `oob` (the C++ behaviour is undefined from there on)."""
@@ -65,6 +115,11 @@ def compare_model_real(index, lines, model, real):
                 break
             n += 1
             if m != r:
+                # class-specific bindings (e.g. matrix arrays) may order their argument checks differently:
+                # outside IntArray two errors with identical state compare equal
+                if not strict_err and m.startswith("err ") and r.startswith("err ") and \
+                        m.split(";", 1)[-1] == r.split(";", 1)[-1]:
+                    continue
                 mism.append((pno, kind, k, m, r))
                 break
     return mism, oobs, n
@@ -203,9 +258,8 @@ def shrink(prog, fails, max_rounds=200):
 
 
 def first_model_real_mismatch(prog, cfg, cls="IntArray"):
-    text = "\n".join(prog) + "\n"
-    _, m = run_model(text, cfg)
-    _, r = run_real(text, cls)
+    m = server("model", cfg=cfg).run(prog)
+    r = server("real", cls).run(prog)
     for k in range(len(prog)):
         a = norm(m[k]) if k < len(m) else "<missing>"
         b = norm(r[k]) if k < len(r) else "<missing>"
@@ -217,10 +271,9 @@ def first_model_real_mismatch(prog, cfg, cls="IntArray"):
 
 
 def first_spec_real_deviation(prog, cls="IntArray"):
-    text = "\n".join(prog) + "\n"
-    _, s = run_spec(text)
-    _, r = run_real(text, cls)
-    _, m = run_model(text)
+    s = server("spec").run(prog)
+    r = server("real", cls).run(prog)
+    m = server("model").run(prog)
     for k in range(len(prog)):
         a = norm(s[k]) if k < len(s) else "<missing>"
         b = norm(r[k]) if k < len(r) else "<missing>"
